@@ -34,7 +34,12 @@
 //!
 //! Non-trivial: chain length ≥ 3 with at least one of {join_on, union_by_name, distinct_on, unnest, window}.
 //!
-//! Sensitivity probes: see the end of this header (filled in after running them with mutrun).
+//! Sensitivity probes (tools/mutrun, patches in crates/vf-hist/probes/, quick tier, seed 0):
+//! * probe-x.diff — `DataFrame::union_by_name` aligns by position (calls `union`): VIOLATION after 239 cases
+//!   ("expected (0, 1, 0, 0) got (0, 0, 1, 0)").
+//! * probe-y.diff — `DataFrame::distinct_on` reverses the sort expressions (keeps the last instead of the first row per key):
+//!   VIOLATION after 5 cases ("expected (0, NULL, NULL) got (1, NULL, NULL)").
+//! * fixes-all.diff: `./check C48 quick` exits 0 with known_excluded = 0 with both repair patches applied.
 use crate::dfexpr::{self, to_df};
 use crate::exprgen::{self, EOpts, Scope, ScopeCol};
 use crate::tape::Tape;
